@@ -39,6 +39,18 @@ def brute_vertical(P, x0):
     return ys
 
 
+def brute_vertical_with_ties(P, x0):
+    """Ordinates of the polygon on the vertical line x = x0 when x0 may EXACTLY equal vertex abscissae: proper
+    crossings plus every vertex on the line (a polygon edge lying on the line contributes its two end points)."""
+    Q = np.vstack([P, P[:1]])
+    ys = [float(ya) for xa, ya in P if xa == x0]
+    for (xa, ya), (xb, yb) in zip(Q[:-1], Q[1:]):
+        if (xa - x0) * (xb - x0) < 0:
+            t = (x0 - xa) / (xb - xa)
+            ys.append(ya + t * (yb - ya))
+    return ys
+
+
 def brute_polyline_crossings(x1, y1, x2, y2):
     out = []
     for i in range(len(x1) - 1):
@@ -93,12 +105,16 @@ def _post_dc(call):
     res = np.asarray(call.result, float).reshape(-1, 2)
     # general position only
     vx = P[:, 0]
-    gen = np.array([np.min(np.abs(vx - x0)) > 1e-6 * max(xr, 1e-300) for x0 in req], bool)
+    exact_hit = np.array([bool(np.any(vx == x0)) for x0 in req], bool)
+    # a vertex whose abscissa is within rounding of x0 without being equal makes the crossing set ambiguous
+    near = np.array([bool(np.any((vx != x0) & (np.abs(vx - x0) <= 1e-6 * max(xr, 1e-300)))) for x0 in req], bool)
+    gen = ~near  # judged: general position, or an abscissa that EXACTLY equals vertex abscissae (and no near miss)
     want = []
-    for x0, g in zip(req, gen):
-        ys = brute_vertical(P, x0)
+    for x0, g, eh in zip(req, gen, exact_hit):
+        ys = brute_vertical_with_ties(P, x0) if eh else brute_vertical(P, x0)
         if ys:
             want.append((x0, max(ys), g, len(ys)))
+    c.count("c17.abscissae-on-a-vertex", int(exact_hit.sum()))
     c.count("c17.abscissae", int(len(req)))
     if default:
         got_x = res[:, 0]
@@ -112,16 +128,25 @@ def _post_dc(call):
         c.count("c17.not-general-position-skipped")
         return
     mech = None
+    if np.any(exact_hit):
+        mech_tie = "design-conditions-vertex-or-vertical-edge-on-the-probe-line"
+    else:
+        mech_tie = None
     exp_x = np.array([w[0] for w in want])
     ok_set = len(res) == len(want) and (len(want) == 0 or bool(np.all(np.abs(res[:, 0] - exp_x) <= tol)))
     if not ok_set:
-        mech = _limits_mech(P, req, res)
+        mech = _tie_mech(P, req, res, exact_hit, tol) or _limits_mech(P, req, res)
     c.check("c17.crossing-set", ok_set, "the returned abscissae are not exactly the requested ones that cross the contour, in order", mech, returned=res[:, 0][:8], expected=exp_x[:8], **info)
     if ok_set and len(want):
         top = np.array([w[1] for w in want])
         okt = np.abs(res[:, 1] - top) <= tol
         if not np.all(okt):
-            mech = _limits_mech(P, req, res)
+            # predicate of the (fixed) finding: every wrong ordinate belongs to an abscissa that is exactly a vertex abscissa
+            bad_x = res[~okt, 0]
+            if all(np.any(P[:, 0] == bx) for bx in bad_x):
+                mech = "design-conditions-vertex-or-vertical-edge-on-the-probe-line"
+            else:
+                mech = _limits_mech(P, req, res)
         j = int(np.argmin(okt))
         c.check("c17.top-ordinate", bool(np.all(okt)), "a design condition does not carry the largest ordinate of the contour at its abscissa", mech, abscissa=float(res[j, 0]), got=float(res[j, 1]), want=float(top[j]), crossings=int(want[j][3]), **info)
 
@@ -133,6 +158,15 @@ def _limits_mech(P, req, res):
     lo, hi = np.min(y) - np.max(y) * 0.1, np.max(y) + np.max(y) * 0.1
     if lo > np.min(y) or hi < np.max(y):
         return "design-conditions-probe-line-misses-negative-ordinates"
+    return None
+
+
+def _tie_mech(P, req, res, exact_hit, tol):
+    """Predicate: the only abscissae missing from the result are exact vertex abscissae."""
+    got = set(np.round(res[:, 0], 12).tolist())
+    missing = [x0 for x0 in req if brute_vertical_with_ties(P, x0) and round(float(x0), 12) not in got]
+    if missing and all(np.any(P[:, 0] == m) for m in missing):
+        return "design-conditions-vertex-or-vertical-edge-on-the-probe-line"
     return None
 
 
@@ -195,14 +229,14 @@ def install():
 def gen_cases(tier, seed):
     rng = np.random.default_rng([seed, 17])
     n = 150 if tier == "quick" else 3000
-    kinds = ["iform", "isorm", "ds", "convex", "star", "star", "iform-normal"]
+    kinds = ["iform", "isorm", "ds", "convex", "star", "star", "iform-normal", "lattice", "rectilinear"]
     cases = []
     for i in range(n):
         cases.append(
             {
                 "kind": "contour",
                 "shape": kinds[i % len(kinds)],
-                "steps": str(rng.choice(["none", "int", "list-inside", "list-mixed", "int-list", "int-array", "range", "tuple"])),
+                "steps": str(rng.choice(["none", "int", "list-inside", "list-mixed", "int-list", "int-array", "range", "tuple", "vertex-abscissae", "vertex-abscissae"])),
                 "swap": bool(rng.integers(2)),
                 "negative": bool(rng.random() < 0.35),
                 "sub": int(rng.integers(1 << 31)),
@@ -239,6 +273,24 @@ def _polygon(case, rng):
         k = int(rng.integers(5, 40))
         t = np.sort(rng.uniform(0, 2 * math.pi, k))
         P = np.c_[3 + 2.5 * np.cos(t), 4 + 1.5 * np.sin(t)] * float(np.exp(rng.uniform(-1, 2)))
+    elif shp == "lattice":
+        # integer vertices: requested integer abscissae hit vertices exactly, vertical edges lie on probe lines
+        k = int(rng.integers(4, 14))
+        t = np.sort(rng.uniform(0, 2 * math.pi, k))
+        P = np.round(np.c_[6 + 5 * np.cos(t) * rng.uniform(0.4, 1, k), 7 + 4 * np.sin(t) * rng.uniform(0.4, 1, k)])
+        P = P[np.r_[True, np.any(np.diff(P, axis=0) != 0, axis=1)]]
+    elif shp == "rectilinear":
+        # a staircase like the cell-centre boundary of a highest-density region: only horizontal / vertical edges
+        n = int(rng.integers(3, 9))
+        h = np.sort(rng.uniform(1, 8, n))[::-1]
+        xs_ = np.arange(n + 1) * float(rng.choice([0.5, 1.0, 0.25]))
+        up = [(xs_[i], h[i]) for i in range(n) for _ in (0,)]
+        pts = []
+        for i in range(n):
+            pts.append((xs_[i], h[i]))
+            pts.append((xs_[i + 1], h[i]))
+        pts += [(xs_[-1], 0.0), (xs_[0], 0.0)]
+        P = np.array(pts, float)
     else:
         k = int(rng.integers(8, 60))
         t = np.sort(rng.uniform(0, 2 * math.pi, k))
@@ -337,6 +389,9 @@ def run_case(case, ctx):
             steps = range(ints[0], ints[-1] + 1)
             if any(np.min(np.abs(P[:, xi] - k)) <= 2e-6 * rngx for k in steps):
                 steps = [int(k) for k in ints]
+    elif case["steps"] == "vertex-abscissae":
+        vs = np.unique(P[:, xi])
+        steps = [float(v) for v in vs[:: max(1, len(vs) // 12)]]
     elif case["steps"] == "tuple":
         steps = tuple(general(np.sort(rng.uniform(lo + 0.02 * rngx, hi - 0.02 * rngx, int(rng.integers(1, 12))))))
     else:
